@@ -107,8 +107,9 @@ CASES = [
     ("m-c11-dict-noread", "C11", "fire", "xdis/marsh.py", "        d = {}\n        while 1:\n            key = self.load()\n            if key is _NULL:\n                break\n            value = self.load()\n            d[key] = value\n        return d",
      "        d = {}\n        key = self.load()\n        value = self.load()\n        while 1:\n            if key is _NULL:\n                break\n            d[key] = value\n        return d", "advances-every-iteration"),
     ("m-c12-print", "C12", "fire", "xdis/cross_dis.py", "    if opc.version_tuple < (3, 10):\n        return findlabels_pre_310(code, opc)", "    if opc.version_tuple < (3, 10):\n        print(\"pre-310\")\n        return findlabels_pre_310(code, opc)", "stdout:"),
-    ("m-c12-skip", "C12", "fire", "xdis/bytecode.py", "            if instr.opname == \"CACHE\" and asm_format not in (", "            if instr.opname in (\"CACHE\", \"NOP\") and asm_format not in (", "exactly-once"),
-    ("m-c12-offset-col", "C12", "fire", "xdis/instruction.py", "            fields.append(repr(self.offset).rjust(4))", "            fields.append(repr(self.arg).rjust(4))", "offset-column"),
+    ("m-c12-skip", "C12", "fire", "xdis/bytecode.py", "            if instr.opname == \"CACHE\" and asm_format not in (", "            if instr.opname in (\"CACHE\", \"NOP\") and asm_format not in (", "every-opcode-name-rendered-once"),
+    ("m-c12-offset-col", "C12", "fire", "xdis/instruction.py", "            fields.append(repr(self.offset).rjust(4))", "            fields.append(repr(self.arg).rjust(4))", ":row"),
+    ("s-c12-offset-col-percent-d", "C12", "silent", "xdis/instruction.py", "            fields.append(repr(self.offset).rjust(4))", "            fields.append(\"%4d\" % self.offset)", ""),
     ("m-c18-cache", "C18", "fire", "xdis/disasm.py", "def get_opcode(version_tuple, is_pypy, alternate_opmap=None):\n    # Set up disassembler with the right opcodes\n    lookup",
      "def get_opcode(version_tuple, is_pypy, alternate_opmap=None):\n    op_imports.setdefault(\"last\", None)\n    op_imports[\"last\"] = version_tuple\n    lookup", "write:global:xdis.op_imports.op_imports"),
     ("m-c18-default", "C18", "fire", "xdis/cross_dis.py", "def findlabels_pre_310(code, opc):\n    \"\"\"Returns a list of instruction offsets in the supplied bytecode\n    which are the targets of some sort of jump instruction.\n    \"\"\"\n    offsets = []",
